@@ -827,6 +827,30 @@ def join(a, b):
             return a
         if a.skind == b.skind == "chars" and len(a.chars) == len(b.chars):
             return StrV("chars", chars=[(ca if ca == cb else "maybe", join(x, y)) for (ca, x), (cb, y) in zip(a.chars, b.chars)])
+        # one side has pushed characters the other has not (`if keep { s.push(c) }`): the common prefix, then the extra
+        # characters as optional ones
+        def as_chars(v):
+            if v.skind == "chars":
+                return list(v.chars)
+            if v.skind == "lit" and len(v.text) <= 64:
+                return [("always", IntV.const("char", ord(ch))) for ch in v.text]
+            return None
+        ca_, cb_ = as_chars(a), as_chars(b)
+        if ca_ is not None and cb_ is not None and len(ca_) != len(cb_):
+            short, long_ = (ca_, cb_) if len(ca_) < len(cb_) else (cb_, ca_)
+
+            def same(x, y):
+                return x is y or (repr(x) == repr(y) and deps_of(x) == deps_of(y))
+            # `short` as a subsequence of `long_` (the same characters, some of them not pushed on one of the paths)
+            out, i = [], 0
+            for cy, y in long_:
+                if i < len(short) and same(short[i][1], y):
+                    out.append((cy if cy == short[i][0] else "maybe", y))
+                    i += 1
+                else:
+                    out.append(("maybe", y))
+            if i == len(short):
+                return StrV("chars", chars=out)
         return StrV("opaque", deps=deps_of(a) | deps_of(b))
     if k == "opaque":
         if a.term == b.term and a.ty == b.ty:
